@@ -87,17 +87,19 @@ TRACES['l2'] = dict(driver='l2-drive', module='Trace_L2', mod='l2', runs=dict(qu
                     inv_tags=dict(SupplyMatchesBalances=['C09', 'C07'], NoStray=['C09', 'C07'], SeqL1Step=['C06'], SeqL2Step=['C09', 'C07'], PairImmutable=['C09'], NoEffectOnReject=['C06', 'C07', 'C09']))
 TRACES['val'] = dict(driver='val-drive', module='Trace_Val', mod='val', runs=dict(quick=10, thorough=120), length=dict(quick=250, thorough=500), timeout=dict(quick=300, thorough=3000),
                      inv_tags=dict(Halted=['C13'], BatchRejectedByEngine=['C13'], IndexBijective=['C13'], Capacity=['C13'], EngineAgrees=['C13']))
+TRACES['br'] = dict(driver='bridge-drive', module='Trace_Bridge', mod='br', runs=dict(quick=9, thorough=90), length=dict(quick=200, thorough=400), timeout=dict(quick=400, thorough=3600),
+                    inv_tags=dict(Solvency=['C08'], Holdings=['C08'], NoStuckTransfer=['C04'], Completeness=['C04', 'C08']))
 
 # property -> engines.  `floor`: minimum counts below which the run is considered vacuous (exit 2).
 PROPERTIES = {
     'C01': dict(traces=['l1'], families=['l1.ledger'], title='L1 escrow conservation and isolation'),
     'C02': dict(traces=['l1'], families=['l1.claims'], title='withdrawal paid at most once'),
     'C03': dict(traces=['l1'], families=['l1.claims'], title='withdrawals cannot be forged'),
-    'C04': dict(families=['br.one', 'l1.trees'], title='every recorded withdrawal can be claimed'),
+    'C04': dict(traces=['br'], families=['br.one', 'l1.trees'], title='every recorded withdrawal can be claimed'),
     'C05': dict(traces=['l1'], families=['l1.oracle', 'l1.window', 'l1.oracle-ind'], title='challenge window / finality'),
     'C06': dict(traces=['l2'], families=['l2.relay', 'l2.deposit'], title='L2 credits each deposit exactly once, in order'),
     'C07': dict(traces=['l2'], families=['l2.deposit'], title='deposit neither lost nor blocking; hooks contained'),
-    'C08': dict(families=['br.one'], title='end-to-end solvency'),
+    'C08': dict(traces=['br'], families=['br.one'], title='end-to-end solvency'),
     'C09': dict(traces=['l2'], families=['l2.deposit'], title='L2 bridged supply conserved'),
     'C10': dict(traces=['l1'], families=['l1.ledger'], title='L1 deposit sequences / events'),
     'C11': dict(traces=['l1'], families=['l1.oracle', 'l1.ledger', 'l1.oracle-ind'], title='output oracle log structure'),
